@@ -136,6 +136,9 @@ def cases_b(tier):
                          'clad_frac': 0.08, 'field': field, 'oftf': 0.012 * rings + 0.006}
                     c.update(m)
                     out.append(c)
+                    if rings == 2 and (pd, wire) == geos[0]:
+                        # the same with the energy-balance tally switched on (reporting only)
+                        out.append(dict(c, ebal=True))
     return out
 
 
@@ -195,6 +198,8 @@ def build_scenario(c, rings=2, pd=1.2, wire=True, q=1000.0, pins='uniform', nste
     npin = S.n_pins(rings)
     power = {'rings': rings, 'cells': [0.0, nsteps_len], 'q': q, 'pins': pins}
     scn = S.single(dsn, 0.045 * npin, length=nsteps_len, power=power)
+    if c.get('ebal'):
+        scn['setup']['calc_energy_balance'] = True
     if mats:
         scn['materials'] = mats
     if c['fuel'] != 'metal' and files:
